@@ -166,6 +166,30 @@ pub fn gen_prev(rng: &mut Rng, q: Option<&[f64; 6]>, class: usize) -> ([f64; 6],
         2 => (joints_uniform(rng, 2.0 * PI), "uniform_2pi"),
         3 => (joints_uniform(rng, 100.0 * PI), "far_outside"),
         4 => (CONSTRAINT_CENTERED, "sentinel"),
+        // the generating vector with rounding-sized noise (a slow trajectory feeding each answer back), or
+        // with single joints replaced by exact zeros
+        6 => match q {
+            Some(q) => {
+                let mut p = *q;
+                for j in 0..6 {
+                    p[j] += rng.sign() * rng.logu(1e-9, 1e-4);
+                }
+                (p, "generating_tiny_noise")
+            }
+            None => (joints_uniform(rng, PI), "uniform_pi"),
+        },
+        7 => match q {
+            Some(q) => {
+                let mut p = *q;
+                for j in 0..6 {
+                    if rng.bool(0.4) {
+                        p[j] = if rng.bool(0.5) { 0.0 } else { -0.0 };
+                    }
+                }
+                (p, "generating_with_zeros")
+            }
+            None => ([0.0; 6], "zeros"),
+        },
         // Non-finite previous vectors are NOT generated: they are outside the property's quantifier
         // (probe: +-inf in previous[J4]/[J6] makes the wrapping `while` loop at kinematics_impl.rs:126-131
         // spin forever, NaN there is passed through compare_poses; both are garbage-in cases).
